@@ -16,6 +16,7 @@ import TboxModel.C14.ProofsHeader
 import TboxModel.C14.ProofsRaw
 import TboxModel.C14.ProofsStream
 import TboxModel.C14.ProofsRpc
+import TboxModel.C14.ProofsRing
 namespace Tbox.C14
 
 /-! ## (1) header-stream framing -/
@@ -123,18 +124,23 @@ theorem C14_raw_prefix (ws : List Byte) (hws : ∀ c ∈ ws, isGraph c = false) 
     simp at hfull
 
 /-- **C14_raw_total.** For arbitrary bytes the scanner's result is −1, 0 or a position inside the
-input, and a frame delimited by the raw-stream decoder is a prefix of the input. -/
+input; the raw-stream decoder never throws; a frame it delimits is a prefix of the input; and
+unbalanced input (a closing bracket without its opening one — the scanner's −1) is *reported*:
+the repaired decoder returns −2 for it (≥ 2 bytes given). -/
 theorem C14_raw_total (data : List Byte) :
     (-1 ≤ findEndPos data ∧ findEndPos data ≤ data.length) ∧
     decodeRaw data ≠ .throws ∧
-    ∀ t n, decodeRaw data = .frame t n → 0 < n ∧ n ≤ data.length ∧ t = data.take n := by
+    (∀ t n, decodeRaw data = .frame t n → 0 < n ∧ n ≤ data.length ∧ t = data.take n) ∧
+    (2 ≤ data.length → findEndPos data < 0 → decodeRaw data = .err (-2)) := by
   have hr := findEndPos_range data
-  refine ⟨hr, ?_, ?_⟩
-  · unfold decodeRaw; split
+  refine ⟨hr, ?_, ?_, ?_⟩
+  · unfold decodeRaw decodeRawG; split
     · simp
-    · simp only; split <;> simp
+    · simp only; split
+      · simp
+      · split <;> simp
   · intro t n h
-    unfold decodeRaw at h
+    unfold decodeRaw decodeRawG at h
     split at h
     · simp at h
     · simp only at h
@@ -143,33 +149,57 @@ theorem C14_raw_total (data : List Byte) :
         obtain ⟨h1, h2⟩ := h
         subst h2 h1
         refine ⟨by omega, by omega, rfl⟩
-      · simp at h
+      · split at h <;> simp at h
+  · intro h2 hneg
+    unfold decodeRaw decodeRawG
+    have : ¬ data.length < 2 := by omega
+    have h3 : ¬ findEndPos data > 0 := by omega
+    simp [this, h3, hneg]
+
+/-- **C14_raw_unbalanced_counterexample** (the tree before
+patches/C14-03-raw-unbalanced-is-an-error.diff): a stray `]` is answered "need more bytes" and so is
+every extension of it — the malformed input is never reported and the stream never recovers. -/
+theorem C14_raw_unbalanced_counterexample :
+    decodeRawOrig [0x5d, 0x7b, 0x7d] = .needMore ∧
+    (∀ x, decodeRawOrig ([0x5d, 0x7b] ++ x) = .needMore) ∧
+    decodeRaw [0x5d, 0x7b, 0x7d] = .err (-2) := by
+  refine ⟨by decide, ?_, by decide⟩
+  intro x
+  have h : scanRun {} [] ([0x5d, 0x7b] ++ x) = .neg 1 := by
+    rw [scanRun_append]; rfl
+  unfold decodeRawOrig decodeRawG findEndPos
+  rw [h]
+  simp
 
 /-- **C14_raw_resumable.** The raw-stream decoder is prefix stable and makes progress. -/
 theorem C14_raw_resumable : Stable decodeRaw ∧ Progress decodeRaw := by
   constructor
   · intro b x hne
-    unfold decodeRaw at hne ⊢
+    unfold decodeRaw decodeRawG at hne ⊢
     by_cases hlen : b.length < 2
     · simp [hlen] at hne
     · have hlen2 : ¬ (b ++ x).length < 2 := by simp; omega
       simp only [hlen, hlen2, if_false] at hne ⊢
+      have hsame : findEndPos b ≠ 0 → findEndPos (b ++ x) = findEndPos b := by
+        intro h0
+        unfold findEndPos at h0 ⊢
+        cases h : scanRun {} [] b with
+        | cont st seen => rw [h] at h0; simp at h0
+        | done p => rw [(scanRun_stable b x).1 p h]
+        | neg p => rw [(scanRun_stable b x).2 p h]
       by_cases he : findEndPos b > 0
-      · simp only [he, if_true]
-        have hsame : findEndPos (b ++ x) = findEndPos b := by
-          unfold findEndPos at he ⊢
-          cases h : scanRun {} [] b with
-          | cont st seen => rw [h] at he; simp at he
-          | done p => rw [(scanRun_stable b x).1 p h]
-          | neg p => rw [h] at he; simp at he
-        rw [hsame]
+      · rw [hsame (by omega)]
         simp only [he, if_true]
         have hle := (findEndPos_range b).2
         congr 1
         rw [List.take_append_of_le_length (by omega)]
-      · simp [he] at hne
+      · by_cases hn : findEndPos b < 0
+        · rw [hsame (by omega)]
+          simp only [he, if_false]
+        · have : findEndPos b = 0 := by omega
+          simp [this] at hne
   · intro b t k h
-    have := (C14_raw_total b).2.2 t k h
+    have := (C14_raw_total b).2.2.1 t k h
     omega
 
 /-- **C14_raw_roundtrip.** Any printed top-level value (what `dump()` writes for an object or an
@@ -182,7 +212,7 @@ theorem C14_raw_roundtrip (ws : List Byte) (hws : ∀ c ∈ ws, isGraph c = fals
     cases hv with
     | bracket sq a _ => simp [printToks, Tok.print]
     | str body _ => simp [printToks, Tok.print]
-  unfold decodeRaw
+  unfold decodeRaw decodeRawG
   have h2 : ¬ (ws ++ printToks v ++ rest).length < 2 := by simp; omega
   simp only [h2, if_false, C14_raw_end ws hws v hv rest]
   have hpos : ((ws ++ printToks v).length : Int) > 0 := by simp; omega
@@ -311,17 +341,153 @@ theorem C14_tick_slot (s : Rpc) (cur nxt : List Nat) (rest : List (List Nat)) (h
       kRequestTimeout nxt := by
   unfold Rpc.tick; simp [h]
 
--- OPEN  C14_ring_expiry (general form): an id added while the current slot is c is handed to the
---       timeout handler by exactly the n-th following tick, for every interleaving of other adds.
---       `C14_tick_slot` is the one-tick rotation it follows from; the concrete instances below
---       (n = 1, 2, 3) are checked by evaluation, the induction over n rotations is not closed.
--- OPEN  C14_callback_timeout: a request still pending after n ticks has been completed with
---       kRequestTimeout ("exactly once" = `C14_callback_once` (at most once) + this (at least once)).
--- OPEN  C14_pending_timer_on: pending non-empty → timerOn (so the ticks do happen).
+/-- **C14_response_id_range.** A response whose id literal is outside the range of `int` is
+ignored (repaired `util::json::Get(int&)`): no callback, no state change. -/
+theorem C14_response_id_range (s : Rpc) (rid code : Int)
+    (h : ¬ (-2147483648 ≤ rid ∧ rid ≤ 2147483647)) : s.respond rid code = (s, []) := by
+  unfold Rpc.respond Rpc.respondG respIdG; simp [h]
+
+/-- **C14_response_id_counterexample** (the tree before patches/C14-04-json-get-int-range.diff):
+`get<int>()` truncates, so the unknown id 4294967297 (= 2³² + 1) completes request 1. -/
+theorem C14_response_id_counterexample :
+    (Rpc.respondG false ((Rpc.init 3).request false).1 4294967297 0).2 = [.fired 0 0] ∧
+    (((Rpc.init 3).request false).1.respond 4294967297 0).2 = [] := by decide
+
+/-- **C14_ring_expiry.** From any state of the monitor (non-degenerate ring, ids in it not above
+the id counter), a request adds its id `x`; then for *every* continuation — requests (their ids are
+added to the then-current slot), responses, notifications, ticks, and requests issued from inside
+timeout callbacks while a tick is being processed (slot swapped out first, then the callbacks) —
+the list of ids handed to the timeout handler by the `j`-th following tick (counted from 0)
+contains `x` exactly once if `j + 1 = N` (the number of slots) and not at all otherwise: `x` expires
+at exactly the `N`-th following tick, once, never earlier, never again. -/
+theorem C14_ring_expiry (s : Rpc) (hr : s.ring ≠ []) (hf : ∀ y ∈ s.ring.flatten, y ≤ s.idAlloc)
+    (c : Bool) (ops : List Op) (j : Nat) (items : List Nat)
+    (h : (runHanded (s.request c).1 ops)[j]? = some items) :
+    items.count (s.idAlloc + 1) = if j + 1 = s.ring.length then 1 else 0 := by
+  have hl := Live_request s c hr hf
+  rw [Live_run (s.idAlloc + 1) ops _ _ hl j items h]
+  have : 0 < s.ring.length := List.length_pos_iff.mpr hr
+  by_cases hj : j = s.ring.length - 1
+  · have : j + 1 = s.ring.length := by omega
+    rw [if_pos hj, if_pos this]
+  · have : ¬ j + 1 = s.ring.length := by omega
+    rw [if_neg hj, if_neg this]
+
+/-- **C14_callback_timeout.** A request (callback tag `s.nTag`) whose id gets no response —
+whatever else happens: other requests, responses to other ids (duplicated, unknown, beyond `int`),
+notifications, chained requests — is still pending after `N − 1` ticks, its callback has not run,
+and the `N`-th tick runs it with the timeout code. -/
+theorem C14_callback_timeout (s : Rpc) (hr : s.ring ≠ []) (hf : ∀ y ∈ s.ring.flatten, y ≤ s.idAlloc)
+    (hinv : RInv s) (c : Bool) (ops : List Op) (hno : NoResponseFor (s.idAlloc + 1) ops)
+    (ht : ticks ops + 1 = s.ring.length) :
+    firedCount s.nTag (run (s.request c).1 ops).2 = 0 ∧
+    REv.fired s.nTag kRequestTimeout ∈ (run (s.request c).1 ops).1.tick.2 := by
+  have hl := Live_request s c hr hf
+  have hp := Pend_new s c
+  obtain ⟨hp', hi'⟩ := Track_run (s.idAlloc + 1) { tag := s.nTag, chain := c } ops (s.request c).1
+    (s.ring.length - 1) hp hl.2.1 hno (by omega)
+  refine ⟨?_, Track_fire _ _ _ hp' hi'⟩
+  -- still pending ⇒ not fired (at-most-once accounting)
+  have hinv1 : RInv (s.request c).1 := by
+    have := (C14_callback_once s hinv [.request c] 0).2.2.2
+    simpa [run, step] using this
+  have hacc := (C14_callback_once (s.request c).1 hinv1 ops s.nTag).2.1
+  have hmem := (pendingFind_mem _ _ _ _ hp'.1).1
+  have hpos : 1 ≤ pendCount s.nTag (run (s.request c).1 ops).1.pending := by
+    have := pendCount_erase_mem s.nTag (s.idAlloc + 1) { tag := s.nTag, chain := c } _ hmem
+    simp at this; omega
+  omega
+
+theorem run_append (s : Rpc) (a b : List Op) :
+    run s (a ++ b) = ((run (run s a).1 b).1, (run s a).2 ++ (run (run s a).1 b).2) := by
+  induction a generalizing s with
+  | nil => simp [run]
+  | cons op a ih => simp only [List.cons_append, run, ih, List.append_assoc]
+
+theorem firedCount_pos_of_mem (t : Nat) (code : Int) (evs : List REv) (h : REv.fired t code ∈ evs) :
+    1 ≤ firedCount t evs := by
+  induction evs with
+  | nil => simp at h
+  | cons e es ih =>
+    rcases List.mem_cons.mp h with h | h
+    · subst h; simp [firedCount]
+    · have := ih h
+      cases e <;> simp [firedCount] <;> omega
+
+/-- **C14_callback_exactly_once.** … hence, in every history in which the request gets no
+response and at least `N` ticks happen, its callback runs exactly once (and that run is the
+timeout of the `N`-th tick; `C14_callback_code` covers the case of a matching response). -/
+theorem C14_callback_exactly_once (s : Rpc) (hr : s.ring ≠ []) (hf : ∀ y ∈ s.ring.flatten, y ≤ s.idAlloc)
+    (hinv : RInv s) (c : Bool) (ops more : List Op) (hno : NoResponseFor (s.idAlloc + 1) ops)
+    (ht : ticks ops + 1 = s.ring.length) :
+    firedCount s.nTag (run (s.request c).1 (ops ++ .tick :: more)).2 = 1 := by
+  have hinv1 : RInv (s.request c).1 := by
+    have := (C14_callback_once s hinv [.request c] 0).2.2.2
+    simpa [run, step] using this
+  have hmost := (C14_callback_once (s.request c).1 hinv1 (ops ++ .tick :: more) s.nTag).1
+  have hfire := (C14_callback_timeout s hr hf hinv c ops hno ht).2
+  have : 1 ≤ firedCount s.nTag (run (s.request c).1 (ops ++ .tick :: more)).2 := by
+    rw [run_append]
+    simp only [run, step, firedCount_append]
+    have := firedCount_pos_of_mem _ _ _ hfire
+    omega
+  omega
+
+/-- **C14_pending_timer_on.** In every state reachable from `initialize(proto, N)` (`N ≥ 1`) by
+any op sequence: every pending request's id is in the ring, `value_number_` is the ring's size, and
+the 1-s timer is enabled iff the ring is non-empty — so while a request is pending the ticks that
+will time it out do happen. -/
+theorem C14_pending_timer_on (n : Nat) (hn : 1 ≤ n) (ops : List Op) :
+    let s := (run (Rpc.init n) ops).1
+    (s.pending ≠ [] → s.timerOn = true) ∧ (∀ e ∈ s.pending, e.1 ∈ s.ring.flatten) ∧
+    s.vn = s.ring.flatten.length ∧ (s.timerOn = true ↔ 0 < s.vn) := by
+  have h := TInv_run ops _ (TInv_init n hn)
+  obtain ⟨h1, h2, h3, h4⟩ := h
+  have hmem : ∀ e ∈ (run (Rpc.init n) ops).1.pending, e.1 ∈ (run (Rpc.init n) ops).1.ring.flatten := by
+    intro e he; rcases h4 e he with h | h
+    · exact h
+    · simp at h
+  refine ⟨?_, hmem, h2, h3⟩
+  intro hne
+  obtain ⟨e, he⟩ := List.exists_mem_of_ne_nil _ hne
+  have := hmem e he
+  apply h3.mpr
+  rw [h2]
+  exact List.length_pos_of_mem this
+
+/-- **C14_pending_timer_on_counterexample** (the reordering of seeded/C14-1: idle decided before
+the callbacks, timer disabled after them): a request re-issued from its own timeout callback stays
+pending with the timer off, so it never completes. -/
+theorem C14_pending_timer_on_counterexample :
+    let s := (((Rpc.init 1).request true).1.tickSeeded).1
+    s.pending ≠ [] ∧ s.timerOn = false := by decide
+
+/-- **C14_raw_backscan_in_bounds.** Whenever the scanner is inside a string (the only place the
+backward backslash loop `for (j = i - 1; j != 0 && …)` runs), at least one character has been read:
+`i ≥ 1`, so the loop starts at a valid index and, stopping at `j = 0`, never leaves the input. -/
+theorem C14_raw_backscan_in_bounds (pre : List Byte) (st : Scan) (seen : List Byte)
+    (h : scanRun {} [] pre = .cont st seen) (hs : st.inStr = true) :
+    seen ≠ [] ∧ seen.length = pre.length := by
+  have hseen := scanRun_cont_seen _ _ _ _ _ h
+  cases pre with
+  | nil => simp [scanRun] at h; rw [← h.1] at hs; simp at hs
+  | cons c cs => subst hseen; simp
 
 /-! ### non-vacuity / concrete runs (evaluation, not part of the unbounded claims) -/
 
 example : RInv (Rpc.init 3) := RInv_init 3
+
+-- the hypotheses of C14_ring_expiry / C14_callback_timeout / C14_callback_exactly_once are met by a
+-- non-trivial history (other requests, a chained one, responses to other / unknown / huge ids)
+example :
+    let s := (run (Rpc.init 3) [.request false, .tick]).1
+    s.ring ≠ [] ∧ (∀ y ∈ s.ring.flatten, y ≤ s.idAlloc) ∧ RInv s ∧
+    NoResponseFor (s.idAlloc + 1) [.request true, .tick, .response 1 0, .response 4294967298 0, .response 7 5, .tick] ∧
+    ticks [.request true, .tick, .response 1 0, .response 4294967298 0, .response 7 5, .tick] + 1 = s.ring.length := by
+  refine ⟨by decide, by decide, (C14_callback_once _ (RInv_init 3) _ 0).2.2.2, ?_, by decide⟩
+  intro rid code h
+  simp at h
+  rcases h with ⟨rfl, _⟩ | ⟨rfl, _⟩ | ⟨rfl, _⟩ <;> decide
 
 -- response before the deadline; duplicate ignored; second request times out at the 2nd tick, once
 example :
